@@ -168,3 +168,99 @@ Proof.
   assert (Hl : length val = length val') by (rewrite <- (map_length bclass val), Ha, map_length; reflexivity).
   rewrite Hl, Hp, (from_tag_sig_classes _ _ Hs), (from_tag_sig_classes _ _ Ha). reflexivity.
 Qed.
+
+(* ---- parameters in front of the branch -------------------------------------------------------------------------------------------------------- *)
+(* a parameter name=value; that is not the branch *)
+Record vprm := mkvprm { vp_n0 : byte; vp_name : list byte; vp_v0 : byte; vp_value : list byte }.
+Definition vp_ok (q : vprm) : Prop :=
+  plain viabr_flags (vp_n0 q) /\ Forall (plain viabr_flags) (vp_name q) /\ plain viabr_flags (vp_v0 q) /\ Forall (plain viabr_flags) (vp_value q) /\
+  eqb_nocase (vp_n0 q :: vp_name q) str_branch = false.
+Definition vp_text (q : vprm) : list byte := (vp_n0 q :: vp_name q) ++ (61 : byte) :: (vp_v0 q :: vp_value q) ++ [(59 : byte)].
+Definition vps_text (P : list vprm) : list byte := flat_map vp_text P.
+Definition br_text (v0 : byte) (value : list byte) : list byte := str_branch ++ (61 : byte) :: v0 :: value.
+
+Lemma loop_branch_last fuel (junk : list byte) v0 value : plain viabr_flags v0 -> Forall (plain viabr_flags) value ->
+  viabr_loop (S fuel) (junk ++ br_text v0 value) (nnat (length junk)) = Some (branch_res (v0 :: value)).
+Proof.
+  intros Hv0 Hval. unfold br_text. cbn [viabr_loop]. destruct branch_plain as [B0 B1].
+  pose proof (tp_spec_eoi_at viabr_flags junk 98 [114; 97; 110; 99; 104] v0 value B0 B1 Hv0 Hval eq_refl) as T. cbv zeta in T.
+  match type of T with _ = ?R => match goal with |- context [parse_tokparam ?a ?b ?c ?d] => replace (parse_tokparam a b c d) with R by (symmetry; exact T) end end. clear T.
+  cbn [tp_name tp_val pl po].
+  repeat match goal with |- context [bget ?B (mkpf ?o (nnat (length ?l)))] =>
+    replace (bget B (mkpf o (nnat (length l)))) with (Some str_branch)
+      by (symmetry; apply (bget_some B junk str_branch ((61 : byte) :: v0 :: value)); reflexivity) end.
+  match goal with |- context [bget ?B (mkpf ?o ?n)] =>
+    replace (bget B (mkpf o n)) with (Some (v0 :: value))
+      by (symmetry; apply (bget_some B (junk ++ str_branch ++ [(61 : byte)]) (v0 :: value) []);
+          [rewrite app_nil_r, <- !app_assoc; reflexivity|rewrite !app_length; unfold str_branch; cbn [length]; unfold nnat; lia|reflexivity]) end.
+  replace (0 <? nnat (length (v0 :: value))) with true by (cbn [length]; unfold nnat; lia).
+  match goal with |- context [nnat (length ?l) =? 6] => replace (nnat (length l) =? 6) with true by reflexivity end.
+  replace (eqb_nocase str_branch str_branch) with true by reflexivity. cbn [andb]. unfold branch_res. destruct (_ && _); reflexivity.
+Qed.
+Lemma loop_branch_more fuel (junk : list byte) v0 value c tail : plain viabr_flags v0 -> Forall (plain viabr_flags) value -> plain viabr_flags c ->
+  viabr_loop (S fuel) (junk ++ br_text v0 value ++ (59 : byte) :: c :: tail) (nnat (length junk)) = Some (branch_res (v0 :: value)).
+Proof.
+  intros Hv0 Hval Hc. unfold br_text. cbn [viabr_loop]. destruct branch_plain as [B0 B1].
+  pose proof (tp_spec_more_at viabr_flags junk 98 [114; 97; 110; 99; 104] v0 value c tail B0 B1 Hv0 Hval Hc) as T. cbv zeta in T.
+  match type of T with parse_tokparam _ ?B _ _ = _ =>
+    assert (Etxt : junk ++ (str_branch ++ (61 : byte) :: v0 :: value) ++ (59 : byte) :: c :: tail = B) by (rewrite <- !app_assoc; reflexivity) end.
+  rewrite Etxt, T. clear T Etxt.
+  cbn [tp_name tp_val pl po].
+  repeat match goal with |- context [bget ?B (mkpf ?o (nnat (length ?l)))] =>
+    replace (bget B (mkpf o (nnat (length l)))) with (Some str_branch)
+      by (symmetry; apply (bget_some B junk str_branch ((61 : byte) :: (v0 :: value) ++ (59 : byte) :: c :: tail)); reflexivity) end.
+  match goal with |- context [bget ?B (mkpf ?o ?n)] =>
+    replace (bget B (mkpf o n)) with (Some (v0 :: value))
+      by (symmetry; apply (bget_some B (junk ++ str_branch ++ [(61 : byte)]) (v0 :: value) ((59 : byte) :: c :: tail));
+          [rewrite <- !app_assoc; reflexivity|rewrite !app_length; unfold str_branch; cbn [length]; unfold nnat; lia|reflexivity]) end.
+  replace (0 <? nnat (length (v0 :: value))) with true by (cbn [length]; unfold nnat; lia).
+  match goal with |- context [nnat (length ?l) =? 6] => replace (nnat (length l) =? 6) with true by reflexivity end.
+  replace (eqb_nocase str_branch str_branch) with true by reflexivity. cbn [andb]. unfold branch_res. destruct (_ && _); reflexivity.
+Qed.
+(* one parameter that is not the branch is stepped over *)
+Lemma loop_skip fuel (junk : list byte) q c tail : vp_ok q -> plain viabr_flags c ->
+  viabr_loop (S fuel) (junk ++ vp_text q ++ c :: tail) (nnat (length junk)) = viabr_loop fuel ((junk ++ vp_text q) ++ c :: tail) (nnat (length (junk ++ vp_text q))).
+Proof.
+  intros (H0 & H1 & H2 & H3 & Hnb) Hc. cbn [viabr_loop]. unfold vp_text.
+  pose proof (tp_spec_more_at viabr_flags junk (vp_n0 q) (vp_name q) (vp_v0 q) (vp_value q) c tail H0 H1 H2 H3 Hc) as T. cbv zeta in T.
+  match type of T with parse_tokparam _ ?B _ _ = _ =>
+    assert (Etxt : junk ++ ((vp_n0 q :: vp_name q) ++ (61 : byte) :: (vp_v0 q :: vp_value q) ++ [(59 : byte)]) ++ c :: tail = B)
+      by (repeat (rewrite <- ?app_assoc; cbn [app]); reflexivity) end.
+  rewrite Etxt, T. cbn [tp_name tp_val pl po].
+  match goal with |- context [bget ?B (mkpf ?o ?n)] =>
+    assert (Eb : bget B (mkpf o n) = Some (vp_n0 q :: vp_name q)) by (eapply (bget_some B junk (vp_n0 q :: vp_name q)); reflexivity) end.
+  rewrite Eb, Hnb. rewrite !Bool.andb_false_r. cbv iota.
+  rewrite <- Etxt. f_equal; [rewrite <- !app_assoc; reflexivity|].
+  repeat (rewrite app_length; cbn [length]). unfold nnat. lia.
+Qed.
+Lemma loop_params : forall P fuel (junk : list byte) v0 value rest, Forall vp_ok P -> plain viabr_flags v0 -> Forall (plain viabr_flags) value ->
+  (rest = [] \/ exists c tail, rest = (59 : byte) :: c :: tail /\ plain viabr_flags c) -> (length P < fuel)%nat ->
+  viabr_loop fuel (junk ++ vps_text P ++ br_text v0 value ++ rest) (nnat (length junk)) = Some (branch_res (v0 :: value)).
+Proof.
+  induction P as [|q P IH]; intros fuel junk v0 value rest HP Hv0 Hval Hrest Hf.
+  - cbn [vps_text flat_map app]. destruct fuel as [|fuel]; [cbn [length] in Hf; lia|].
+    destruct Hrest as [->|(c & tail & -> & Hc)]; [rewrite app_nil_r; apply loop_branch_last; assumption|apply loop_branch_more; assumption].
+  - pose proof (Forall_inv HP) as Hq. pose proof (Forall_inv_tail HP) as HP'. destruct fuel as [|fuel]; [cbn [length] in Hf; lia|].
+    cbn [vps_text flat_map]. fold (vps_text P). rewrite <- app_assoc.
+    assert (Hnext : exists c tail, vps_text P ++ br_text v0 value ++ rest = c :: tail /\ plain viabr_flags c).
+    { destruct P as [|q2 P2].
+      - exists 98. eexists. split; [reflexivity|exact (proj1 branch_plain)].
+      - pose proof (Forall_inv HP') as (Q0 & _). exists (vp_n0 q2). eexists. split; [reflexivity|exact Q0]. }
+    destruct Hnext as (c & tail & Et & Hc). rewrite Et. rewrite (loop_skip fuel junk q c tail Hq Hc). rewrite <- Et.
+    apply IH; auto. cbn [length] in Hf. lia.
+Qed.
+Theorem viabr_branch_after_params (host : list byte) P v0 value rest : Forall (fun d => (d =? 59) = false) host -> Forall vp_ok P ->
+  plain viabr_flags v0 -> Forall (plain viabr_flags) value -> (rest = [] \/ exists c tail, rest = (59 : byte) :: c :: tail /\ plain viabr_flags c) ->
+  viabr_sig_len (host ++ (59 : byte) :: vps_text P ++ br_text v0 value ++ rest) = Some (branch_res (v0 :: value)).
+Proof.
+  intros Hh HP Hv0 Hval Hrest. unfold viabr_sig_len. rewrite (index_of_app 59 host _ 0 Hh).
+  set (junk := host ++ [(59 : byte)]).
+  assert (Eb : host ++ (59 : byte) :: vps_text P ++ br_text v0 value ++ rest = junk ++ vps_text P ++ br_text v0 value ++ rest)
+    by (subst junk; rewrite <- app_assoc; reflexivity).
+  rewrite Eb. replace (0 + nnat (length host) + 1) with (nnat (length junk)) by (subst junk; rewrite app_length; cbn [length]; unfold nnat; lia).
+  apply loop_params; auto.
+  (* one parameter takes at least four bytes *)
+  assert (Hlen : forall P0, (length P0 <= length (vps_text P0))%nat).
+  { induction P0 as [|q0 P0 IH0]; [cbn; lia|]. cbn [vps_text flat_map length]. fold (vps_text P0). rewrite app_length. unfold vp_text. rewrite app_length. cbn [length]. lia. }
+  specialize (Hlen P). rewrite !app_length. lia.
+Qed.
